@@ -340,6 +340,10 @@ func init() {
 			{Scenario: "ticker2", Budgets: bs(B(2, 0)), Split: 1},
 			{Scenario: "tm3", Budgets: bs(B(2, 0)), Split: 1},
 			{Scenario: "queue3", Budgets: bs(B(2, 0)), Split: 1},
+			// the same queue while it is being retransmitted: the delayed
+			// acknowledgements are processed between two writes of the
+			// resend loop
+			{Scenario: "queue3/resend", Budgets: bs(B(2, 0)), Split: 1},
 			{Scenario: "coincide/N=2", Budgets: bs(B(1, 0)), Split: 1},
 			{Scenario: "coincide/N=2/at=1999ms", Budgets: bs(B(1, 0)), Split: 1},
 			{Scenario: "coincide/N=2/at=2001ms", Budgets: bs(B(1, 0)), Split: 1},
@@ -349,6 +353,7 @@ func init() {
 			{Scenario: "ticker2/rounds=3", Budgets: bs(B(2, 0)), Split: 2},
 			{Scenario: "tm3", Budgets: bs(B(3, 0)), Split: 2},
 			{Scenario: "queue3", Budgets: bs(B(4, 0)), Split: 2},
+			{Scenario: "queue3/resend", Budgets: bs(B(3, 0)), Split: 2},
 			{Scenario: "coincide/N=2", Budgets: bs(B(2, 0)), Filter: "tickeronly", Split: 2},
 			{Scenario: "coincide/N=2/at=1999ms", Budgets: bs(B(1, 0)), Split: 1},
 			{Scenario: "coincide/N=2/at=2001ms", Budgets: bs(B(1, 0)), Split: 1},
